@@ -229,6 +229,59 @@ def ted_add_affine(P, Q, a, d):
     return (x1 * y2 + x2 * y1) / (1 + t), (y1 * y2 - a * x1 * x2) / (1 - t)
 
 
+def rfc8032_ed25519_add(P1, P2, d):
+    """RFC 8032 section 5.1.4, extended homogeneous coordinates (X:Y:Z:T), x = X/Z, y = Y/Z, x*y = T/Z"""
+    (X1, Y1, Z1, T1), (X2, Y2, Z2, T2) = P1, P2
+    A = (Y1 - X1) * (Y2 - X2)
+    B = (Y1 + X1) * (Y2 + X2)
+    C = T1 * 2 * d * T2
+    D = Z1 * 2 * Z2
+    E = B - A
+    F = D - C
+    G = D + C
+    H = B + A
+    return E * F, G * H, F * G, E * H          # X3, Y3, Z3, T3
+
+
+def rfc8032_ed25519_double(P1):
+    """RFC 8032 section 5.1.4, doubling"""
+    X1, Y1, Z1, _T1 = P1
+    A = X1 * X1
+    B = Y1 * Y1
+    C = 2 * Z1 * Z1
+    H = A + B
+    E = H - (X1 + Y1) * (X1 + Y1)
+    G = A - B
+    F = C + G
+    return E * F, G * H, F * G, E * H          # X3, Y3, Z3, T3
+
+
+def rfc8032_ed448_add(P1, P2, d):
+    """RFC 8032 section 5.2.4, projective coordinates (X:Y:Z)"""
+    (X1, Y1, Z1), (X2, Y2, Z2) = P1, P2
+    A = Z1 * Z2
+    B = A * A
+    C = X1 * X2
+    D = Y1 * Y2
+    E = d * C * D
+    F = B - E
+    G = B + E
+    H = (X1 + Y1) * (X2 + Y2)
+    return A * F * (H - C - D), A * G * (D - C), F * G
+
+
+def rfc8032_ed448_double(P1):
+    """RFC 8032 section 5.2.4, doubling"""
+    X1, Y1, Z1 = P1
+    B = (X1 + Y1) * (X1 + Y1)
+    C = X1 * X1
+    D = Y1 * Y1
+    E = C + D
+    H = Z1 * Z1
+    J = E - 2 * H
+    return (B - E) * J, E * (C - D), E * J
+
+
 def mont_curve(x, y, A, B=1):
     return B * y * y - (x * x * x + A * x * x + x)
 
